@@ -591,19 +591,20 @@ mod archives {
             if i == 1 { return (0..len).map(|k| (k as u8).wrapping_mul(37) ^ round).collect() }
             vec![0x41 + i as u8 + 8 * round; len]
         };
-        let state = |serial: u64, deltas: u64| RrdpArchive::verif_state_new(
+        // one delta only: the map is written in HashMap iteration order, which differs from run to run
+        let state = |serial: u64, etag_len: usize| RrdpArchive::verif_state_new(
             rpki::uri::Https::from_str("https://example.net/rrdp/notification.xml").unwrap(),
             uuid::Uuid::from_u128(0xa1a2a3a4b1b2c1c2d1d2d3d4d5d6d7d8u128), serial, 1_700_000_000, 1_700_100_000,
-            Some(1_699_999_000), Some(bytes::Bytes::from_static(b"\"etag-1\"")),
-            (0..deltas).map(|k| (serial - k, rrdp::Hash::from_data(&[k as u8]))).collect());
+            Some(1_699_999_000), Some(bytes::Bytes::from(format!("\"{}\"", "e".repeat(etag_len)).into_bytes())),
+            std::iter::once((serial, rrdp::Hash::from_data(&[serial as u8]))).collect());
         {
             let mut a = ok(RrdpArchive::try_open(Arc::new(path.clone())), "try_open").expect("base archive exists");
             for i in [0usize, 1, 2, 3, 4, 5, 7] { ok(a.publish_object(&rsync(&names[i]), &content(i, 0)), "publish"); }
-            ok(a.publish_state(&state(40, 2)), "publish_state");
+            ok(a.publish_state(&state(40, 6)), "publish_state");
             ok(a.update_object(&rsync(&names[2]), rrdp::Hash::from_data(&content(2, 0)), &content(2, 1)), "update (move)");
             ok(a.delete_object(&rsync(&names[4]), rrdp::Hash::from_data(&content(4, 0))), "delete");
             ok(a.update_object(&rsync(&names[1]), rrdp::Hash::from_data(&content(1, 0)), &content(1, 1)), "update (in place)");
-            ok(a.update_state(&state(47, 9)), "update_state");
+            ok(a.update_state(&state(47, 330)), "update_state");
             ok(a.publish_object(&rsync(&names[6]), &content(6, 0)), "publish (reuse)");
             ok(a.delete_object(&rsync(&names[5]), rrdp::Hash::from_data(&content(5, 0))), "delete");
         }
@@ -963,7 +964,9 @@ mod archives {
     //--- parent side
 
     struct AWorker { child: Child, stdin: ChildStdin, rx: Receiver<String> }
-    static AWORKER: Mutex<Option<AWorker>> = Mutex::new(None);
+    // one worker per driver thread (the stream runs its cases on several threads: most of a case's wall-clock time on
+    // a loaded machine is waiting to be scheduled)
+    thread_local! { static AWORKER: std::cell::RefCell<Option<AWorker>> = std::cell::RefCell::new(None); }
 
     fn spawn() -> AWorker {
         // no backtrace on abort: symbolising one costs seconds of CPU time, which the watchdog would take for a hang
@@ -992,9 +995,7 @@ mod archives {
     /// Sends one case to the worker and collects its answers: (answers, end line, "" | "timeout" | "died", how it went away).
     fn attempt(names: &[String], bytes: &Value, cpu_limit: f64, secs: u64) -> (Vec<Value>, Option<Value>, &'static str, Value) {
         let deadline = Instant::now() + Duration::from_secs(secs);
-        let mut guard = AWORKER.lock().unwrap();
-        if guard.is_none() { *guard = Some(spawn()); }
-        let w = guard.as_mut().unwrap();
+        let mut w = AWORKER.with(|c| c.borrow_mut().take()).unwrap_or_else(spawn);
         let cpu0 = cpu_seconds(w.child.id());
         let sent = writeln!(w.stdin, "{}", json!({"names": names, "bytes": bytes})).and_then(|_| w.stdin.flush()).is_ok();
         let mut answers: Vec<Value> = Vec::new();
@@ -1016,8 +1017,9 @@ mod archives {
             }
         }
         let mut death = Value::Null;
-        if end.is_none() {
-            let mut w = guard.take().unwrap();
+        if end.is_some() {
+            AWORKER.with(|c| *c.borrow_mut() = Some(w));
+        } else {
             if how == "timeout" { let _ = w.child.kill(); }
             drop(w.stdin);
             let status = w.child.wait().map(|s| s.to_string()).unwrap_or_else(|e| e.to_string());
@@ -1073,5 +1075,7 @@ mod archives {
 fn main() {
     if std::env::args().nth(1).as_deref() == Some("worker") { return worker() }
     if std::env::args().nth(1).as_deref() == Some("aworker") { return archives::worker() }
+    // the archives stream: independent worker processes, four at a time
+    if std::env::var("C27_STREAM").as_deref() == Ok("archives") { return drive_par(gen, run, 4) }
     drive(gen, run)
 }
